@@ -76,6 +76,7 @@ def shards(tier, seed):
     level = LEVELS[tier]
     items = [("type", b, i, level) for b in inputs.BASES for i in range(len(inputs.shapes(level)))]
     items.append(("directive", level))
+    items += [("nnpairs", b, level) for b in inputs.BASES]
     return items
 
 
@@ -113,6 +114,12 @@ def observe(engine, text, raw):
     return ("fielderror",), resp, scn
 
 
+def _null_at_depth(v, depth):
+    if depth == 0:
+        return v is None
+    return isinstance(v, list) and any(_null_at_depth(x, depth - 1) for x in v)
+
+
 def run_shard(item):
     level = item[-1]
     schema = schema_for(level)
@@ -130,7 +137,7 @@ def run_shard(item):
             "summary": "%s [%s] %s variables=%r: observed %r expected one of %r" % (clause, way, text, raw, obs, exp),
             "replay": {"text": text, "variables_repr": repr(raw), "level": level, "way": way}})
 
-    def case(way, tstr, text, raw, group=None, must_be_valid=True, ill_typed=False):
+    def case(way, tstr, text, raw, group=None, must_be_valid=True, ill_typed=False, relational_only=False):
         """run one spelling; absolute oracle; returns the observation for the relational oracle"""
         located = doc.parse(text)
         rules = V.validate(schema, located)
@@ -142,6 +149,10 @@ def run_shard(item):
         out["tables"]["ways"][way] = out["tables"]["ways"].get(way, 0) + 1
         obs, resp, scn = observe(engine, text, raw)
         out["tables"]["outcomes"][obs[0]] = out["tables"]["outcomes"].get(obs[0], 0) + 1
+        if relational_only:
+            if obs[0] == "raised":
+                viol("execute-raised", way, tstr, text, raw, obs, "a response")
+            return ("refused",) if obs[0] == "fielderror" else obs  # refused by validation or as a field error: the resolver did not run
         if ill_typed:
             if obs[0] == "args" or obs[0] == "raised":
                 viol("ill-typed-value-delivered", way, tstr, text, raw, obs, "no resolver call")
@@ -154,6 +165,47 @@ def run_shard(item):
             viol("argument-dictionary-differs" if obs[0] == "args" else "outcome-differs", way, tstr, text, raw, obs, exp)
         return obs
 
+    if item[0] == "nnpairs":
+        # Non-null transparency: NonNull(T) coerces a non-null value exactly as T does.  For every pair of declared shapes (A, B) where
+        # B is A with one more "!" after a list level or at the end, every spelling whose value is non-null at that level must be
+        # observed identically through x: A and x: B -- including list literals holding a variable without runtime value (DC3 leaves
+        # null-or-invalid open, but not dependent on the nullability of the *enclosing* list).
+        base = item[1]
+        shs = inputs.shapes(level)
+        pairs = []
+        for bi, b in enumerate(shs):
+            for k, ch in enumerate(b):
+                if ch == "!" and k > 0 and b[k - 1] == "]":
+                    a = b[:k] + b[k + 1:]
+                    if a in shs:
+                        pairs.append((shs.index(a), bi, b[:k].count("[") - b[:k].count("]")))
+        for ai, bi, depth in pairs:
+            ta, tb = (doc.parse_type_str(shs[i].replace("T", base)) for i in (ai, bi))
+            ga, gb = "g_%s_%d" % (base, ai), "g_%s_%d" % (base, bi)
+            leaf = doc.named_of(ta)
+            spell = []
+            for v in inputs.json_values(ta):
+                if v is None or not isinstance(v, list) or _null_at_depth(v, depth):
+                    continue
+                lit = inputs.to_literal(schema, ta, v)
+                if lit is not None and not _has_float_for_intlike(schema, ta, v):
+                    spell.append(("literal", "{ %%s(x: %s) }" % S.value_str(lit).replace("%", "%%"), None))
+            # a variable without runtime value as (one of) the innermost items, wrapped in as many list literals as the type has levels
+            levels = shs[ai].count("[")
+            innermost_nullable = not shs[ai].replace("]", "").replace("[", "").endswith("!")
+            if innermost_nullable:
+                glit = S.value_str(inputs.to_literal(schema, ("named", leaf), inputs.GOOD[leaf])).replace("%", "%%")
+                for items_txt, tag in (("$e", "missing-variable-alone"), (glit + ", $e", "missing-variable-last"), ("$e, " + glit, "missing-variable-first")):
+                    txt = "[" * levels + items_txt + "]" * levels
+                    for raw, rtag in (({}, ""), ({"e": None}, "|null"), ({"e": inputs.GOOD[leaf]}, "|value")):
+                        spell.append((tag + rtag, "query($e: %s) { %%s(x: %s) }" % (leaf, txt), raw))
+            for way, tmpl, raw in spell:
+                oa = case("nn-transparency|" + way.split("|")[0], shs[ai].replace("T", base), tmpl % ga, raw, must_be_valid=False, relational_only=True)
+                ob = case("nn-transparency|" + way.split("|")[0], shs[bi].replace("T", base), tmpl % gb, raw, must_be_valid=False, relational_only=True)
+                out["counts"]["relational_groups"] += 1
+                if oa is not None and ob is not None and oa != ob:
+                    viol("non-null-wrapper-changes-coercion", way, shs[bi].replace("T", base), tmpl % gb, raw, ob, [oa])
+        return out
     if item[0] == "type":
         _, base, si, _ = item
         shape = inputs.shapes(level)[si]
